@@ -302,6 +302,18 @@ impl Sim {
                 }
             }
         }
+        // the connection clocks of an old session: in a sixth of the executions every endpoint has already been updated for
+        // a long time when the traffic starts (one update call of that length; 2^31 / 2^32 ms are 25 / 50 days), so
+        // that the run crosses the point where a narrower time representation would wrap. Own random stream.
+        let mut crng = Rng::new(run_seed ^ 0xC10C_0000_0000_0001);
+        if crng.chance(1, 6) {
+            const CLOCK_EDGES_MS: [u64; 5] = [1 << 31, 1 << 32, 1 << 33, (1u64 << 32) * 1000, 1 << 42];
+            let age = Duration::from_millis(*crng.pick(&CLOCK_EDGES_MS) - crng.range(1, 4000));
+            server.update(age);
+            for c in clients.iter_mut() {
+                c.update(age);
+            }
+        }
         Sim {
             cfg,
             server,
